@@ -2,6 +2,7 @@
 //! nvh — noodles verification harness.
 //!   nvh run <PROP> --seed S --tier quick|thorough --dir D      generate + correspondence answers + oracle
 //!   nvh replay <PROP> --dir D <case…>                           re-run one oracle case
+mod adversary;
 mod common;
 mod props;
 use common::Ctx;
